@@ -104,18 +104,10 @@ class ExecS(Exec):
             if len(present) < len(vals) and k.startswith("$"):
                 raise Unsupported(f"ghost variable {k} undefined on some path")
             if len(present) < len(vals):
-                # defined on some paths only: keep it usable when all defining paths agree
+                # defined on some paths only: usable afterwards only if all defining paths agree on the very
+                # same value; otherwise the name is dropped (a later use is reported as unsupported)
                 if all(v is present[0] for v in present):
                     out.env[k] = present[0]
-                    continue
-                try:
-                    acc = present[-1]
-                    pg = [g for g, v in zip(guards, vals) if v is not _MISSING]
-                    for g, v in zip(reversed(pg[:-1]), reversed(present[:-1])):
-                        acc = merge_val(g, v, acc, k)
-                    out.env[k] = acc
-                except Unsupported:
-                    pass
                 continue
             mk_ = tuple(id(v) for v in vals)
             if mk_ in memo:
@@ -126,7 +118,7 @@ class ExecS(Exec):
                 for g, v in zip(reversed(guards[:-1]), reversed(vals[:-1])):
                     acc = merge_val(g, v, acc, k)
             except Unsupported:
-                if k.startswith("__"):
+                if k == "__current_exc__" or k == "__old_env__":
                     continue
                 raise
             out.env[k] = acc
